@@ -1,5 +1,6 @@
 """C20 — caches and the recent-write tier stay within their configured bounds (engine M skeletons; Kani bounded
 histories of the shared recency index over a finite-map model of HashMap)."""
+import re
 from vlib.mo import *
 from vlib.runner import KH, run_kani_group, run_mir_obligations
 
@@ -56,9 +57,48 @@ MOS = [
                      exit="any", exit_ev=call(r"= HotTier::insert_with_coherence\(", name="hot_tier.insert_with_coherence")),
              never(T + "insert", call(r"= HotTier::insert_with_coherence\(", name="hot_tier.insert_with_coherence"), frm=Arm(r"^discr\(call TieredEngine::emergency_flush_hot_tier\)$", {"1"}, name="emergency flush -> Err")),
              precedes(T + "insert", call(r"= HotTier::len\(", name="hot_tier.len()"), call(r"= HotTier::insert_with_coherence\(", name="hot_tier.insert_with_coherence")),
-             precedes(T + "emergency_flush_hot_tier", call(r"= HotTier::drain_for_flush\(", name="hot_tier.drain_for_flush"), call(r"= TieredEngine::reconcile_drained_hot_tier_documents\(", name="reconcile_drained_hot_tier_documents"))),
-       functions=[("tiered_engine.rs", "insert"), ("tiered_engine.rs", "emergency_flush_hot_tier")]),
+             lambda F: emergency_drain_unconditional(F)),
+       functions=[("tiered_engine.rs", "insert"), ("tiered_engine.rs", "emergency_flush_hot_tier"), ("tiered_engine.rs", "flush_hot_tier")]),
 ]
+
+
+def emergency_drain_unconditional(F):
+    """emergency_flush_hot_tier drains unconditionally: hot_tier.drain_for_flush() is called on every path to Ok and precedes
+    the reconciliation.  If the function instead delegates to flush_hot_tier(force), the drain there must not depend on
+    needs_flush(): with `force == false` it is reached ONLY_VIA the needs_flush() arm, i.e. a hot tier at its hard limit but
+    below the soft threshold / age is not drained and the insert that triggered the emergency goes in on top."""
+    import vlib.mir as _M
+    from vlib.mirflow import origin as _o
+    f = T + "emergency_flush_hot_tier"
+    fc = FnCheck(F, f)
+    if fc.fn is None:
+        return [fc.missing()]
+    DRAIN = call(r"= HotTier::drain_for_flush\(", name="hot_tier.drain_for_flush")
+    REC = call(r"= TieredEngine::reconcile_drained_hot_tier_documents\(", name="reconcile_drained_hot_tier_documents")
+    if fc.count(DRAIN) > 0:
+        return [fc.precedes(DRAIN, REC), fc.precedes(DRAIN, exit_ok())]
+    deleg = [b for b in fc.fn.blocks.values() if not b.cleanup and b.kind == "call" and re.search(r"= TieredEngine::flush_hot_tier\(", b.term or "")]
+    if not deleg:
+        return [Result("inconclusive", "emergency_flush_hot_tier neither drains the hot tier itself nor delegates to flush_hot_tier")]
+    force = _M._split_top(deleg[0].args)[1].strip() if len(_M._split_top(deleg[0].args)) > 1 else "?"
+    g = FnCheck(F, T + "flush_hot_tier")
+    if g.fn is None:
+        return [g.missing()]
+    NEEDS = Arm(r"^call HotTier::needs_flush$", {"otherwise"}, name="hot_tier.needs_flush() == true")
+    FORCED = Arm(r"^arg\(_2: bool\)$", {"otherwise"}, name="force == true")
+    r = g.never(DRAIN, cut=[NEEDS, FORCED])  # drain reachable with force == false and needs_flush() == false?
+    if force == "const false" and r.verdict == "holds":
+        return [Result("violated", "emergency_flush_hot_tier delegates to flush_hot_tier(false), whose drain is reached only when needs_flush() holds: at the hard limit but below the soft threshold / age nothing is drained "
+                       "and the triggering insert is mirrored on top — the recent-write tier exceeds hot_tier_hard_limit (the two limits are independent settings)", queries=r.queries, seconds=r.seconds,
+                       sample={"fn": fc.name, "kind": "ONLY_VIA", "delegates_to": "flush_hot_tier(%s)" % force})]
+    if force == "const true":
+        # with force == true the needs_flush() test is short-circuited: the drain precedes every Ok of flush_hot_tier on that arm
+        return [g.precedes(DRAIN, exit_ok(), assume=[FORCED])]
+    return [Result("inconclusive", "emergency_flush_hot_tier delegates to flush_hot_tier(%s): not decided" % force)]
+
+
+def exit_ok():
+    return stmt(r"^_0 = Result::<usize, anyhow::Error>::Ok\(", name="return Ok(count)")
 
 
 def paired_updates(F):
